@@ -193,6 +193,19 @@ func outDir() string {
 	return d
 }
 
+// History saves the full failing history of a timing-dependent case (where a
+// seed does not reproduce the schedule and rapid may report "flaky"), at most
+// a few per process, and returns the path ("" when the cap is reached).
+func (r *Rec) History(name string, payload interface{}) string {
+	r.mu.Lock()
+	n := len(r.Violations)
+	r.mu.Unlock()
+	if n >= 4 {
+		return ""
+	}
+	return r.Violation(name, payload)
+}
+
 // Violation writes a replay file of kind "case" and returns its path.
 func (r *Rec) Violation(name string, payload interface{}) string {
 	r.mu.Lock()
